@@ -26,7 +26,7 @@ ASSUMPTIONS = ['fit clause: loss <= loss_uniform*(1+1e-9); exactness clause as C
                'LocalInference takes explicit query matrices (it has no fix_measurements step), so queries are never None here',
                'the pairwise-convex oracle needs cvxopt (not installed) and is not part of the quantifier']
 PLAN = {
-    'quick': dict(cases=216, budget_s=90, case_timeout=600, min_cases=50),
+    'quick': dict(cases=162, budget_s=90, case_timeout=600, min_cases=50),
     'thorough': dict(cases=1500, budget_s=1200, case_timeout=1200, min_cases=250),
 }
 ITERS = [1, 2, 3, 5, 10, 20, 51, 52, 60, 100, 200, 1000]
@@ -81,8 +81,12 @@ def uniform_loss(attrs, shape, plain, total):
     return f
 
 
-def run_local(m, dom, tuples, total, oracle, iters):
+def run_local(m, dom, tuples, total, oracle, iters, prior=None):
     eng = m.LocalInference(dom, iters=iters, marginal_oracle=oracle)
+    if prior is not None:
+        # the estimator object has a history: an earlier estimate() on the same cliques with other answers
+        with quiet(), np.errstate(all='ignore'):
+            eng.estimate(list(prior), total=total)
     seen = []
     orig = eng._marginal_loss
 
@@ -113,8 +117,13 @@ def run_case(case, ctx):
     rel = None
     history = []
     for iters in schedule:
+        prior = None
+        if case['np_seed'] % 4 == 0 and not case.get('balanced'):
+            prng = np.random.RandomState(case['np_seed'] % (2 ** 32))
+            prior = [(Q, np.asarray(y) * 0.5 + prng.normal(0, s_, size=np.asarray(y).shape), s_, p) for Q, y, s_, p in tuples]
+            ctx.tag('estimator_object_reused')
         try:
-            eng, model, seen = run_local(m, dom, tuples, case['total'], oracle, iters)
+            eng, model, seen = run_local(m, dom, tuples, case['total'], oracle, iters, prior)
         except Exception as e:
             import traceback
             fu0 = uniform_loss(attrs, shape, plain, case['total']) if case['total'] is not None else None
